@@ -29,6 +29,14 @@ pub enum WAct {
     Undo,
     Rebuild(bool),
     Read,
+    /// read the shared task's property, then commit an update that sets it to the value just
+    /// read (old value == new value from this handle's point of view; another handle may have
+    /// changed it in between, and the recorded operation must take effect all the same)
+    Reassert,
+    /// a separate read-only handle reads the operations, the tasks and the operations again in
+    /// ONE storage transaction: the two reads must agree and the tasks must be the replay of
+    /// the operations (storage.md: serializable isolation)
+    RoRead,
 }
 
 #[derive(Clone, Debug, PartialEq, Eq, Hash, Serialize, Deserialize)]
@@ -58,6 +66,7 @@ pub fn strategy(processes: bool) -> BoxedStrategy<Workload> {
                     3 => Just(WAct::Undo),
                     1 => any::<bool>().prop_map(WAct::Rebuild),
                     1 => Just(WAct::Read),
+                    2 => Just(WAct::RoRead),
                 ]
                 .boxed()
             } else {
@@ -66,6 +75,8 @@ pub fn strategy(processes: bool) -> BoxedStrategy<Workload> {
                     3 => Just(WAct::Toggle),
                     1 => any::<bool>().prop_map(WAct::Rebuild),
                     2 => Just(WAct::Read),
+                    2 => Just(WAct::Reassert),
+                    2 => Just(WAct::RoRead),
                 ]
                 .boxed()
             };
@@ -184,6 +195,80 @@ pub fn worker(dir: &Path, w: usize, script: &[WAct], delay_us: u64, epoch: Insta
                     end_us: end,
                     err: r.err().map(|e| e.to_string()),
                 });
+            }
+            WAct::Reassert => {
+                seq += 1;
+                let cur = block_on(rep.replica.get_task_data(shared_uuid()))
+                    .ok()
+                    .flatten()
+                    .and_then(|t| t.get("p").map(|s| s.to_string()));
+                if delay_us > 0 {
+                    std::thread::sleep(std::time::Duration::from_micros(delay_us * 3));
+                }
+                let ops = vec![
+                    Operation::UndoPoint,
+                    Operation::Update {
+                        uuid: shared_uuid(),
+                        property: "p".into(),
+                        old_value: cur.clone(),
+                        value: cur,
+                        timestamp: ts(0),
+                    },
+                    Operation::Update {
+                        uuid: shared_uuid(),
+                        property: "reasserted-by".into(),
+                        old_value: None,
+                        value: Some(format!("w{w}s{seq}")),
+                        timestamp: ts(0),
+                    },
+                ];
+                let start = epoch.elapsed().as_micros() as u64;
+                let r = rep.commit(ops.clone());
+                let end = epoch.elapsed().as_micros() as u64;
+                log.push(LogEntry::Commit {
+                    ops,
+                    ok: r.is_ok(),
+                    start_us: start,
+                    end_us: end,
+                    err: r.err().map(|e| e.to_string()),
+                });
+            }
+            WAct::RoRead => {
+                let pause = std::time::Duration::from_micros(delay_us + 200);
+                let r = (|| -> Result<Option<String>, taskchampion::Error> {
+                    let mut s = block_on(taskchampion::SqliteStorage::new(dir, taskchampion::storage::AccessMode::ReadOnly, false))?;
+                    let mut txn = block_on(s.txn())?;
+                    let ops1 = block_on(txn.unsynced_operations())?;
+                    std::thread::sleep(pause);
+                    let tasks = block_on(txn.all_tasks())?;
+                    std::thread::sleep(pause);
+                    let ops2 = block_on(txn.unsynced_operations())?;
+                    if ops1 != ops2 {
+                        return Ok(Some(format!(
+                            "one transaction of a read-only handle read {} unsynchronized operations and then {}",
+                            ops1.len(),
+                            ops2.len()
+                        )));
+                    }
+                    let mut m = Model::new();
+                    for op in &ops1 {
+                        m.apply_operation(op);
+                    }
+                    let got = Model(tasks.into_iter().map(|(u, t)| (u, t.into_iter().collect())).collect());
+                    if got != m {
+                        return Ok(Some(format!(
+                            "one transaction of a read-only handle read {} operations and {} tasks that are not the replay of those operations",
+                            ops1.len(),
+                            got.0.len()
+                        )));
+                    }
+                    Ok(None)
+                })();
+                match r {
+                    Ok(Some(torn)) => log.push(LogEntry::Other { what: format!("ro-torn: {torn}"), ok: false }),
+                    Ok(None) => log.push(LogEntry::Other { what: "ro-read".into(), ok: true }),
+                    Err(e) => log.push(LogEntry::Other { what: format!("ro-read error: {e}"), ok: false }),
+                }
             }
             WAct::Undo => {
                 match block_on(rep.replica.get_undo_operations()) {
@@ -342,6 +427,9 @@ pub fn run_workload(wl: &Workload) -> Result<Audit, Failure> {
                 LogEntry::Undo { ops, result: Some(true), .. } => {
                     ok_undos += 1;
                     undone.insert(key(ops));
+                }
+                LogEntry::Other { what, .. } if what.starts_with("ro-torn") => {
+                    return Err(Failure::new("read-only-torn-read", format!("worker {w}: {what}")));
                 }
                 LogEntry::Other { what, ok } if what.starts_with("open") && !*ok => {
                     return Err(Failure::new("infra", format!("worker {w} could not open the database: {what}")));
@@ -502,7 +590,7 @@ pub fn run(e: &Engine) {
     }
     e.record_external(
         "stress",
-        "2-8 workers (threads; every 4th run child processes), each with its own handle on one SQLite directory, run generated scripts of commits (operations tagged worker/sequence, optionally touching a shared task), undo, rebuild and reads, with 0-1000 us sleeps inside every storage call; audit through a fresh handle: every successful commit present exactly once, contiguous and in order, failed and undone commits absent, stored tasks == replay of the stored operations, working-set entries unique; non-trivial = at least two commits' wall-clock intervals overlapped (measured)",
+        "2-8 workers (threads; every 4th run child processes), each with its own handle on one SQLite directory, run generated scripts of commits (operations tagged worker/sequence, optionally touching a shared task, or re-asserting the value just read of a shared property), undo, rebuild, reads, and one-transaction consistency reads through a separate read-only handle (operations read twice must agree, tasks must be their replay), with 0-1000 us sleeps inside every storage call; audit through a fresh handle: every successful commit present exactly once, contiguous and in order, failed and undone commits absent, stored tasks == replay of the stored operations, working-set entries unique; non-trivial = at least two commits' wall-clock intervals overlapped (measured)",
         n,
         fps,
         vec![
